@@ -42,6 +42,9 @@
 static int send_buffer(struct buffered_socket *bs)
 {
 	uint8_t *write_buffer_ptr = bs->write_buffer;
+	if (unlikely(bs->broken)) {
+		return -1;
+	}
 	while (bs->to_write != 0) {
 		cjet_ssize_t written = socket_writev_with_prefix(bs->ev.sock, write_buffer_ptr, bs->to_write, NULL, 0);
 
@@ -315,6 +318,7 @@ void buffered_socket_init(struct buffered_socket *bs, socket_type sock, struct e
 	bs->ev.loop = loop;
 
 	bs->to_write = 0;
+	bs->broken = false;
 	bs->read_ptr = bs->read_buffer;
 	bs->write_ptr = bs->read_buffer;
 
@@ -336,10 +340,16 @@ int buffered_socket_writev(void *this_ptr, struct socket_io_vector *io_vec, unsi
 {
 	struct buffered_socket *bs = (struct buffered_socket *)this_ptr;
 	size_t to_write = bs->to_write;
+	size_t io_vec_length = 0;
+
+	if (unlikely(bs->broken)) {
+		return -1;
+	}
 
 	for (unsigned int i = 0; i < count; i++) {
-		to_write += io_vec[i].iov_len;
+		io_vec_length += io_vec[i].iov_len;
 	}
+	to_write += io_vec_length;
 
 	cjet_ssize_t sent = socket_writev_with_prefix(bs->ev.sock, bs->write_buffer, bs->to_write, io_vec, count);
 	if (likely(sent == (cjet_ssize_t)to_write)) {
@@ -370,6 +380,21 @@ int buffered_socket_writev(void *this_ptr, struct socket_io_vector *io_vec, unsi
 		io_vec_written = written - bs->to_write;
 		bs->to_write = 0;
 	}
+
+	/*
+	 * A frame is queued completely or not at all. If a part of it is
+	 * already on the wire and the rest can't be queued, nothing else
+	 * must ever follow on this connection.
+	 */
+	if (unlikely((io_vec_length - io_vec_written) > (CONFIG_MAX_WRITE_BUFFER_SIZE - bs->to_write))) {
+		log_err("not enough space left in write buffer! %zu bytes of %i left", CONFIG_MAX_WRITE_BUFFER_SIZE - bs->to_write, CONFIG_MAX_WRITE_BUFFER_SIZE);
+		if (io_vec_written > 0) {
+			bs->broken = true;
+			bs->to_write = 0;
+		}
+		return -1;
+	}
+
 	if (unlikely(copy_iovec_to_write_buffer(bs, io_vec, count, io_vec_written) < 0)) {
 		return -1;
 	}
